@@ -486,6 +486,9 @@ def check(P, R, tier):
     # TAI / GPS labelled stamps go through the zone code: the offset (the leap count) is a function of the UTC instant
     import c12
     c12.check_fixpoint(P, R)
+    import leapdecode
+    nl = leapdecode.run(R, P, "RF2-leap-arith")
+    R.floor("RF2-leap-arith", "decoded points of the leap second arithmetic", nl, 4000)
     check_table(P, R)
     tu = P.tu("leaps.c")
     nf = 0
